@@ -47,7 +47,7 @@ def gen_single(rng, profile="general"):
     T = int(rng.integers(Tmin, Tmin + 130))
     flavor = wd.FLAVORS[int(rng.integers(0, len(wd.FLAVORS)))]
     if profile == "hostile":
-        flavor = ["uniform_scale", "sensor_scale", "const_sensor", "dup_rows", "corr", "sensor_scale", "baseline"][int(rng.integers(0, 7))]
+        flavor = ["uniform_scale", "sensor_scale", "const_sensor", "dup_rows", "corr", "sensor_range", "baseline", "idle"][int(rng.integers(0, 8))]
     if profile == "plain":
         flavor = "plain"
     d = dict(gen="regime", seed=int(rng.integers(0, 2 ** 31)), T=T, N=N, n_reg=n_reg, seg=int(rng.integers(8, 40)),
